@@ -69,6 +69,7 @@ type ldResult struct {
 	Hung     int        `json:"hung"`
 	LoaderRuns    int   `json:"loaderruns"`    // loader invocations (single and bulk) until quiescence
 	LoadsRecorded int   `json:"loadsrecorded"` // load successes + failures in the statistics snapshot at that moment
+	EmptyBulk     int   `json:"emptybulk"`     // invocations of the bulk loader with an empty key list
 	Drift    int        `json:"drift"`   // script steps that could not be followed
 	ScriptN  int        `json:"scriptn"`
 	Dropped  []verifkit.Step `json:"dropped"`
@@ -330,6 +331,11 @@ func runLoadScenario(sc ldScenario) ldResult {
 	bulk := BulkLoaderFunc[int, int](func(ctx context.Context, keys []int) (map[int]int, error) {
 		id := newRun()
 		oc := pickOutcome(id)
+		if len(keys) == 0 {
+			mu.Lock()
+			res.EmptyBulk++
+			mu.Unlock()
+		}
 		for _, k := range keys {
 			note(ldEvent{T: "ldenter", Op: "BulkLoad", K: k, Run: id})
 		}
